@@ -1,4 +1,5 @@
 import ShootVerif.Proofs.CtorMain
+import ShootVerif.Model.TParams
 /-!
 C02 — `NewT(args…)` stores every constructor parameter in exactly the field it is named after
 (including fields promoted from embedded structs, built as nested literals, pointer embeds
@@ -127,6 +128,24 @@ theorem C02_ptr_embeds_allocated (t : Tree) (hwf : WF t = true) (π : List Strin
   simp only [WF, Bool.and_eq_true] at hwf
   have hw : WFLevels t := (wfLevels_iff t).mp hwf.1.1.1
   rw [C02_body_reparse, hasSub_lit _ _ π true false 0 t hw, h]
+
+/-- for a generic struct whose constraints are identifiers the constructor carries the same type
+    parameters and constraints, group by group -/
+theorem C02_typeparams (gs : List TParams.Group) (h : ∀ g ∈ gs, g.isIdent = true) :
+    TParams.paramGroups gs = TParams.specGroups gs ∧ TParams.typeParamList gs = TParams.specList gs := by
+  have hp : TParams.paramGroups gs = TParams.specGroups gs := by
+    unfold TParams.paramGroups TParams.specGroups TParams.typeParams
+    rw [TParams.filter_all _ gs h, TParams.zip_map_self, List.map_map]
+    rfl
+  exact ⟨hp, by unfold TParams.typeParamList TParams.specList; rw [hp]⟩
+
+/-- finding region F_tparamNonIdent (recorded in known_findings): a constraint that is not a plain
+    identifier (`cmp.Ordered`, `~int | ~string`, `fmt.Stringer`) is dropped and the remaining
+    constraints are paired with the wrong parameter groups -/
+theorem C02_F_tparamNonIdent_witness :
+    let gs : List TParams.Group := [⟨["K"], "cmp.Ordered", false⟩, ⟨["V"], "any", true⟩]
+    TParams.typeParamList gs = "K any" ∧ TParams.specList gs = "K cmp.Ordered, V any" := by
+  decide
 
 /-- finding region F_topSkipShadows (recorded in known_findings.json): a `new:"-"` top-level field
     hides a promoted field of the same name for Go, but the generator drops the skipped field before
